@@ -34,7 +34,9 @@ EXTENDS Naturals, Sequences, FiniteSets, TLC, Json
 CONSTANTS Family,        \* "expr": expression spines below `let x = _`;  "form": declaration/statement/type spines;
                          \* "full": the products Full2 / Cond3 / declaration pairs
           MaxDepth,      \* number of constructors on a spine below the root
-          FullOps        \* "reps" (one operator per precedence level as children of Full2) or "all"
+          FullOps,       \* "reps" (one operator per precedence level as children of Full2) or "all"
+          AllAtomsUpTo,  \* spines with at most this many constructors are closed by every nullary form of the sort,
+          DefaultFrom    \* longer ones by the core forms only, spines with at least DefaultFrom constructors by the default leaf
 
 Sig(n, s, t, sl) == <<n, s, t, sl>>
 
@@ -301,9 +303,11 @@ InTemplate == \E k \in 1..Len(sp) : sp[k][1] \in TemplateForms
 Extend == /\ Family # "full" /\ leaf = "" /\ Len(sp) - RootLen < MaxDepth
           /\ \E p \in CtorSlots[CurSort] : p[1] # "rootE" /\ (InTemplate => p[1] \notin TemplateForms) /\ sp' = Append(sp, p)
           /\ UNCHANGED <<leaf, full>>
-\* below the first constructor only the core nullary forms close a spine (identifier, integer, nominal type, ...)
+\* short spines are closed by every nullary form, longer ones only by the core forms (identifier, integer, nominal type, ...)
 Close  == /\ Family # "full" /\ leaf = "" /\ Len(sp) > 0
-          /\ \E a \in (IF Len(sp) - RootLen <= 1 THEN AtomsAll ELSE AtomsCore)[CurSort] :
+          /\ \E a \in (IF Len(sp) - RootLen <= AllAtomsUpTo THEN AtomsAll[CurSort]
+                      ELSE IF Len(sp) - RootLen >= DefaultFrom /\ CurSort # "G" THEN {Default(CurSort)[1]} \cap AtomsCore[CurSort]
+                      ELSE AtomsCore[CurSort]) :
                 /\ InTemplate => a \notin TemplateForms
                 /\ ~(a = "import-bare" /\ sp[Len(sp)][1] \in {"prog2", "prog2;"} /\ sp[Len(sp)][2] = 1)
                 /\ leaf' = a
